@@ -22,7 +22,9 @@ CONSTANTS
   Conn,     \* connections
   Req,      \* requests (client-side identity)
   Mode,     \* "cancel" | "detached"   (HandlerTaskMode)
-  Ids       \* framework request ids that may be generated
+  Ids,      \* framework request ids that may be generated
+  MaxSteps, \* bound on the handler steps counted per request (model checking)
+  SendKinds \* ways a client may send a request: subset of {"full", "head", "body"}
 
 VARIABLES
   cst,      \* [Conn -> [client, server]]
@@ -35,7 +37,7 @@ vars == <<cst, rq, srv, wg, usedIds>>
 
 NoConn == "noconn"
 
-InitReq == [conn |-> NoConn, sent |-> "no", stage |-> "none", h |-> "none",
+InitReq == [conn |-> NoConn, sent |-> "no", stage |-> "none", ext |-> "no", h |-> "none",
             task |-> "none", id |-> "", status |-> 0, hstatus |-> 0, recv |-> "no", steps |-> 0]
 
 Init ==
@@ -46,19 +48,21 @@ Init ==
   /\ wg = 0
   /\ usedIds = {}
 
-InFlight(r) == rq[r].stage \in {"started", "versioned", "routed", "extracted"}
+InFlight(r) == rq[r].stage \in {"started", "versioned", "routed"}
 ClientGone(r) == rq[r].conn # NoConn /\ cst[rq[r].conn].client = "gone"
 
 \* ------------------------------------------------------------------ clients
-ClientConnect(c) ==                                                    \* [D]
+ClientConnect(c) ==                                                    \* [D] connect attempt
   /\ cst[c].client = "idle"
-  /\ ~srv.gracefulDone           \* afterwards the listener is gone: see ConnectRefused
   /\ cst' = [cst EXCEPT ![c].client = "open"]
   /\ UNCHANGED <<rq, srv, wg, usedIds>>
 
-ConnectRefused(c) ==                                                   \* [D]
-  /\ cst[c].client = "idle"
-  /\ srv.gracefulDone            \* the task owning the listener has finished
+\* The attempt fails: only possible once the accept loop has exited (the
+\* listener is dropped when the serving task ends).
+ConnectRefused(c) ==                                                   \* [D] connect_failed
+  /\ cst[c].client = "open"
+  /\ cst[c].server = "none"
+  /\ srv.acceptExit
   /\ cst' = [cst EXCEPT ![c].client = "refused"]
   /\ UNCHANGED <<rq, srv, wg, usedIds>>
 
@@ -88,6 +92,23 @@ ClientRecv(r, status, complete, idhdr) ==                              \* [D]
   /\ complete                                   \* C17: the whole response arrives
   /\ rq' = [rq EXCEPT ![r].recv = "complete"]
   /\ UNCHANGED <<cst, srv, wg, usedIds>>
+
+\* The client sees its connection end without a response.  Legitimate only
+\* when (a) a handler on that connection panicked (HTTP/1: the connection
+\* dies with it, and pipelined followers are lost -- DESIGN section 8 rule 5),
+\* or (b) the request had not been started when shutdown began.
+ClientNoResponse(r) ==                                                 \* [D]
+  /\ rq[r].conn # NoConn
+  /\ rq[r].recv = "no"
+  /\ \/ \E r2 \in Req : rq[r2].conn = rq[r].conn /\ rq[r2].h = "panicked"
+     \/ srv.closeReq /\ rq[r].stage = "none"
+  /\ rq' = [rq EXCEPT ![r].recv = "none"]
+  /\ UNCHANGED <<cst, srv, wg, usedIds>>
+
+\* The driver gave up waiting for a request that the server never picked up:
+\* legitimate only if shutdown had been requested before the request was
+\* started (DESIGN section 8 rule 6).
+NeverServed(r) == srv.closeReq /\ rq[r].stage = "none"
 
 \* ------------------------------------------------------------------- server
 Accept(c) ==                                                           \* [F] accept
@@ -125,18 +146,21 @@ Spawn(r) ==                                                            \* [F] sp
   /\ wg' = wg + 1
   /\ UNCHANGED <<cst, srv, usedIds>>
 
+\* The extractors ran successfully (handler.rs handle_request).  In detached
+\* mode this happens inside the spawned task, which is not tied to the request
+\* future: it may happen although the request future has been dropped.
 ExtractOk(r) ==                                                        \* [F] extract_ok
-  /\ rq[r].stage = "routed"
-  /\ Mode = "detached" => rq[r].task = "spawned"
-  /\ rq' = [rq EXCEPT ![r].stage = "extracted"]
+  /\ rq[r].ext = "no"
+  /\ \/ rq[r].stage = "routed" /\ (Mode = "detached" => rq[r].task = "spawned")
+     \/ Mode = "detached" /\ rq[r].stage = "cancelled" /\ rq[r].task = "spawned"
+  /\ rq' = [rq EXCEPT ![r].ext = "ok"]
   /\ UNCHANGED <<cst, srv, wg, usedIds>>
 
-\* In detached mode the handler runs in its own task and is not tied to the
-\* request future: it may start and run although the request future has been
-\* dropped ("cancelled").
+\* The handler may be invoked once the extractors have succeeded; when it is
+\* awaited inline (cancel mode) only while the request future is alive.
 HandlerMayRun(r) ==
-  \/ rq[r].stage = "extracted"
-  \/ Mode = "detached" /\ rq[r].stage = "cancelled" /\ rq[r].task = "spawned"
+  /\ rq[r].ext = "ok"
+  /\ Mode = "cancel" => rq[r].stage = "routed"
 
 HandlerEnter(r) ==                                                     \* [D] handler_enter
   /\ HandlerMayRun(r)
@@ -151,6 +175,7 @@ Alive(r) == Mode = "cancel" => rq[r].stage # "cancelled"
 HandlerStep(r) ==                                                      \* [D] handler_step
   /\ rq[r].h = "running"
   /\ Alive(r)
+  /\ rq[r].steps < MaxSteps
   /\ rq' = [rq EXCEPT ![r].steps = @ + 1]
   /\ UNCHANGED <<cst, srv, wg, usedIds>>
 
@@ -182,7 +207,8 @@ HandlerDropped(r) ==                                                   \* [D] ha
 TaskExit(r) ==                                                         \* [F] task_exit
   /\ Mode = "detached"
   /\ rq[r].task = "spawned"
-  /\ rq[r].h \in {"none", "completed"}          \* extractor failed, or handler returned
+  /\ \/ rq[r].h = "completed"                 \* the handler returned
+     \/ rq[r].h = "none" /\ rq[r].ext = "no"    \* the extractors failed
   /\ rq' = [rq EXCEPT ![r].task = "exited",
                       ![r].h = IF @ = "none" THEN "skipped" ELSE @]
   /\ wg' = wg - 1
@@ -192,7 +218,9 @@ TaskExit(r) ==                                                         \* [F] ta
 \* (the scopeguard in http_request_handle_wrap fires).
 ReqCancelled(r) ==                                                     \* [F] req_cancelled
   /\ InFlight(r)
-  /\ ClientGone(r)
+  \* the client went away -- or the request future is being unwound by a
+  \* handler panic (the same scopeguard fires)
+  /\ ClientGone(r) \/ rq[r].h = "panicked"
   \* cancel mode: the handler future lives inside the request future and is
   \* dropped first, within the same synchronous drop
   /\ Mode = "cancel" => rq[r].h # "running"
@@ -206,7 +234,7 @@ RespReady(r, status, iserr) ==                                         \* [F] re
   /\ InFlight(r)
   /\ rq[r].h \in {"none", "skipped", "completed"}
   /\ rq[r].h = "completed" => status = rq[r].hstatus
-  /\ rq[r].h \in {"none", "skipped"} => iserr /\ status >= 400 /\ status <= 499
+  /\ rq[r].h \in {"none", "skipped"} => rq[r].ext = "no" /\ iserr /\ status >= 400 /\ status <= 499
   /\ rq' = [rq EXCEPT ![r].stage = "responded", ![r].status = status]
   /\ UNCHANGED <<cst, srv, wg, usedIds>>
 
@@ -243,8 +271,8 @@ CloseReturned ==                                                       \* [D] cl
 \* ---------------------------------------------------------------------------
 Next ==
   \/ \E c \in Conn : ClientConnect(c) \/ ConnectRefused(c) \/ ClientDisconnect(c) \/ Accept(c)
-  \/ \E r \in Req, c \in Conn, k \in {"full", "head", "body"} : ClientSend(r, c, k)
-  \/ \E r \in Req : ClientFinish(r)
+  \/ \E r \in Req, c \in Conn, k \in SendKinds : ClientSend(r, c, k)
+  \/ \E r \in Req : ClientFinish(r) \/ ClientNoResponse(r)
   \/ \E r \in Req, id \in Ids : ReqStart(r, id)
   \/ \E r \in Req : VersionOk(r) \/ RouteOk(r) \/ Spawn(r) \/ ExtractOk(r)
                     \/ HandlerEnter(r) \/ HandlerStep(r) \/ HandlerPanic(r)
@@ -279,17 +307,17 @@ DetachedNeverCancelled == Mode = "detached" => \A r \in Req : rq[r].h # "dropped
 CancelOnlyWhenGone == \A r \in Req : rq[r].h = "dropped" => ClientGone(r)
 
 \* C16: a started handler ends exactly one way (action property)
-EndsOnce ==
-  [][\A r \in Req : rq[r].h \in {"completed", "panicked", "dropped", "skipped"} => rq'[r].h = rq[r].h]_vars
+EndsOnceStep ==
+  \A r \in Req : rq[r].h \in {"completed", "panicked", "dropped", "skipped"} => rq'[r].h = rq[r].h
+EndsOnce == [][EndsOnceStep]_vars
 
 \* C16: no progress after cancellation (steps frozen once dropped)
-NoProgressAfterCancel ==
-  [][\A r \in Req : rq[r].h = "dropped" => rq'[r].steps = rq[r].steps]_vars
+NoProgressStep == \A r \in Req : rq[r].h = "dropped" => rq'[r].steps = rq[r].steps
+NoProgressAfterCancel == [][NoProgressStep]_vars
 
 \* C10 / C16: a handler never runs for a request that was refused
 NoHandlerBeforeReject ==
-  \A r \in Req : rq[r].h \in {"running", "completed", "panicked", "dropped"} =>
-                   rq[r].stage \in {"extracted", "responded", "cancelled"}
+  \A r \in Req : rq[r].h \in {"running", "completed", "panicked", "dropped"} => rq[r].ext = "ok"
 
 \* C17: shutdown does not finish while a handler runs or a started request
 \* is unanswered
@@ -301,7 +329,7 @@ CloseAfterDone == srv.closeReturned => srv.wgDone /\ srv.gracefulDone /\ srv.acc
 
 \* C17: a started request whose client stays connected is never dropped
 StayedGetsResponse ==
-  \A r \in Req : rq[r].stage = "cancelled" => ClientGone(r)
+  \A r \in Req : rq[r].stage = "cancelled" => ClientGone(r) \/ rq[r].h = "panicked"
 
 \* C17: nothing is accepted after the accept loop has exited
 NoAcceptAfterExit ==
